@@ -276,6 +276,12 @@ func genC10(t *core.Tape, tier string) *Scenario {
 		q.Deadline = p.Deadline/time.Duration(2+t.Choose(1000, "resend.div")) + 1
 		if t.Bool(1, 3, "resend.without.deadline") {
 			q.Deadline = 0 // ... or with no deadline at all: then no timeout may be sent
+		} else if t.Bool(1, 4, "resend.beyond.the.header") {
+			// ... or with one too far away for the protocol's header to express
+			// (Connect: 10 digits of milliseconds; gRPC: 8 digits of hours)
+			q.Deadline = []time.Duration{200 * 24 * time.Hour, 1<<63 - 1}[t.Choose(2, "resend.far")]
+			q.InterceptDeadline, q.CallerDeadline = false, 0 // the caller's own context carries it
+			sc.Notes["request_object_resent_with_inexpressible_deadline"]++
 		}
 		sc.Calls = append(sc.Calls, &q)
 		sc.Notes["request_object_resent"]++
